@@ -216,7 +216,7 @@ func runC19(c *fw.Case) {
 	c.Count("probes", 1)
 
 	// zero-inflation expectations at reachable states
-	curIdx := int(st.SequenceId) - 1
+	curIdx := int(st.SequenceId) - int(mc.FirstID)
 	if zeroProbe == "before-start" {
 		c.Count("zero_before_start", 1)
 		if I.Sign() != 0 {
@@ -322,7 +322,7 @@ func c19EndedByUpdate(c *fw.Case, n *chain.Node, mc gen.MinterConfig, curIdx int
 		return
 	}
 	st := n.App.CfeminterKeeper.GetMinterState(n.Ctx())
-	curIdx = int(st.SequenceId) - 1
+	curIdx = int(st.SequenceId) - int(mc.FirstID)
 	if curIdx >= len(mc.Sorted)-1 {
 		return
 	}
